@@ -116,6 +116,86 @@ theorem toUpThenDown_length (v : List Bool) : (toUpThenDown v).length = v.length
   simp only [List.length_zipIdx] at this
   exact this
 
+/-! ### the filling rule for every register size -/
+
+/-- clipped stop index of a Python slice -/
+def sliceStop (len : Nat) (stop : Int) : Nat := if stop < 0 then Int.toNat (stop + len) else min stop.toNat len
+
+theorem setStride_get (v : List Bool) (start : Nat) (stop : Int) (i : Nat) :
+    (setStride v start stop)[i]? = (v[i]?).map (fun b =>
+      if start ≤ i ∧ i < sliceStop v.length stop ∧ (i - start) % 2 = 0 then true else b) := by
+  simp only [setStride, sliceStop, List.getElem?_map, List.getElem?_zipIdx, Nat.zero_add]
+  cases v[i]? with
+  | none => rfl
+  | some b =>
+    simp only [Option.map_some]
+    congr 1
+    by_cases h1 : start ≤ i <;> by_cases h2 : i < (if stop < 0 then Int.toNat (stop + v.length) else min stop.toNat v.length) <;>
+      by_cases h3 : (i - start) % 2 = 0 <;> simp [h1, h2, h3]
+
+theorem setStride_length (v : List Bool) (start : Nat) (stop : Int) : (setStride v start stop).length = v.length := by
+  simp [setStride]
+
+/-- **open-shell filling**: for every number of spin-orbitals n, every (n_electrons, spin ≠ 0) with matching
+    parity and 0 ≤ n_alpha, n_beta, position i of the vector is occupied exactly when it is one of the lowest
+    n_alpha even (alpha) or n_beta odd (beta) positions -/
+theorem occupation_open_shell (n : Nat) (ne s : Int) (hs : s ≠ 0) (hpar : (ne + s) % 2 = 0)
+    (hA : 0 ≤ (ne + s) / 2) (hB : 0 ≤ (ne - s) / 2) (i : Nat) (hi : i < n) :
+    (occupation n ne (some s))[i]? = some (
+      if i % 2 = 0 then decide (((i / 2 : Nat) : Int) < (ne + s) / 2) else decide (((i / 2 : Nat) : Int) < (ne - s) / 2)) := by
+  have hs' : (s == 0) = false := by simpa using hs
+  simp only [occupation, hs', Bool.false_eq_true, if_false]
+  rw [setStride_get, setStride_get, setStride_length]
+  have hrep : (List.replicate n false)[i]? = some false := by
+    rw [List.getElem?_replicate]; simp [hi]
+  rw [hrep]
+  simp only [Option.map_some, List.length_replicate]
+  -- arithmetic: Python floor division by 2 is Lean's `/` on Int for the positive divisor 2
+  have hf : ∀ a : Int, fdiv2 a = a / 2 := fun a => by
+    unfold fdiv2; exact Int.fdiv_eq_ediv_of_nonneg a (by decide)
+  have hnA : fdiv2 ne + fdiv2 s + ne % 2 = (ne + s) / 2 := by rw [hf, hf]; omega
+  have hnB : fdiv2 ne - fdiv2 s = (ne - s) / 2 := by rw [hf, hf]; omega
+  rw [hnA, hnB]
+  congr 1
+  set a := (ne + s) / 2 with ha
+  set b := (ne - s) / 2 with hb
+  have h2a : ¬ (2 * a < 0) := by omega
+  have h2b : ¬ (2 * b + 1 < 0) := by omega
+  simp only [sliceStop, h2a, h2b, if_false]
+  rcases Nat.mod_two_eq_zero_or_one i with hev | hod
+  · have c1 : ¬ (1 ≤ i ∧ i < min (2 * b + 1).toNat n ∧ (i - 1) % 2 = 0) := by
+      rintro ⟨h1, _, h3⟩; omega
+    simp only [c1, if_false, hev, if_true]
+    by_cases hlt : ((i / 2 : Nat) : Int) < a
+    · have : (0 ≤ i ∧ i < min (2 * a).toNat n ∧ (i - 0) % 2 = 0) := ⟨Nat.zero_le _, by omega, by omega⟩
+      rw [if_pos this]; exact (decide_eq_true hlt).symm
+    · have : ¬ (0 ≤ i ∧ i < min (2 * a).toNat n ∧ (i - 0) % 2 = 0) := by rintro ⟨_, h2, _⟩; omega
+      rw [if_neg this]; exact (decide_eq_false hlt).symm
+  · have hne : ¬ (i % 2 = 0) := by omega
+    have c0 : ¬ (0 ≤ i ∧ i < min (2 * a).toNat n ∧ (i - 0) % 2 = 0) := by rintro ⟨_, _, h3⟩; omega
+    simp only [c0, if_false, hne]
+    by_cases hlt : ((i / 2 : Nat) : Int) < b
+    · have : (1 ≤ i ∧ i < min (2 * b + 1).toNat n ∧ (i - 1) % 2 = 0) := ⟨by omega, by omega, by omega⟩
+      rw [if_pos this]; exact (decide_eq_true hlt).symm
+    · have : ¬ (1 ≤ i ∧ i < min (2 * b + 1).toNat n ∧ (i - 1) % 2 = 0) := by rintro ⟨_, h2, _⟩; omega
+      rw [if_neg this]; exact (decide_eq_false hlt).symm
+
+/-- **closed-shell filling** (`spin` absent or 0): the first `n_electrons` positions are occupied -/
+theorem occupation_closed_shell (n : Nat) (ne : Nat) (i : Nat) (hi : i < n) :
+    (occupation n ne none)[i]? = some (decide (i < ne)) ∧ (occupation n ne (some 0))[i]? = some (decide (i < ne)) := by
+  have key : (occupation.setStride' (List.replicate n false) (ne : Int))[i]? = some (decide (i < ne)) := by
+    simp only [occupation.setStride', List.getElem?_map, List.getElem?_zipIdx, List.length_replicate, Nat.zero_add]
+    rw [List.getElem?_replicate]
+    have hneg : ¬ ((ne : Int) < 0) := by omega
+    simp only [hi, if_true, Option.map_some, hneg, if_false, Int.toNat_natCast]
+    congr 1
+    by_cases h : i < ne
+    · have : i < min ne n := by omega
+      simp [this, h]
+    · have : ¬ i < min ne n := by omega
+      simp [this, h]
+  exact ⟨key, by simpa [occupation] using key⟩
+
 /-- the filled vector has exactly the requested alpha / beta electrons in the lowest orbitals — for every
     admissible (n_electrons, spin ≠ 0 branch included) and every even n ≤ 10 (finite table, kernel-checked;
     the unbounded statement is covered by the exhaustive correspondence only) -/
